@@ -61,19 +61,64 @@ theorem ids_sortLayers (ls : List MLayer) (h : (ls.map (·.id)).Nodup) : ((sortL
 def noInj (defs : List LayerDef) : Bool :=
   defs.all fun d => d.caps.all fun c => match c.kind with | .hl _ => true | .inj _ => false
 
-/-- Different layers: no two captures start at the same byte, and a capture that starts strictly
-inside another layer's capture ends inside it (laminar). -/
+/-- The capture yields a recognised highlight. -/
+def hlSome (c : RCap) : Bool := match c.kind with | .hl (some _) => true | _ => false
+
+/-- The captures that can become a SPAN: those whose node has some capture with a recognised
+highlight in the same layer (`collapse` keeps the last such capture of the node). -/
+def spanCaps (d : LayerDef) : List RCap :=
+  d.caps.filter fun c => d.caps.any fun c' => c'.node == c.node && hlSome c'
+
+/-- `collapse` only returns a highlight that some capture of the node carries. -/
+theorem collapse_fst_some {node hh : Nat} : ∀ (caps : List RCap) (h : Option Nat),
+    (collapse node h caps).1 = some hh → h = some hh ∨ ∃ c' ∈ caps, c'.node = node ∧ c'.kind = .hl (some hh) := by
+  intro caps
+  induction caps with
+  | nil => intro h hc; exact Or.inl (by simpa [collapse] using hc)
+  | cons x r ih =>
+    intro h hc
+    unfold collapse at hc
+    by_cases hx : x.node = node
+    · simp only [hx, if_true] at hc
+      rcases ih _ hc with h1 | ⟨c', h1, h2, h3⟩
+      · refine Or.inr ⟨x, List.mem_cons_self, hx, ?_⟩
+        cases hk : x.kind with
+        | hl h' => rw [hk] at h1; simp only at h1; rw [h1]
+        | inj ids => rw [hk] at h1; simp at h1
+      · exact Or.inr ⟨c', List.mem_cons_of_mem _ h1, h2, h3⟩
+    · simp only [hx, if_false] at hc
+      exact Or.inl hc
+
+/-- Different layers, over the captures that can become spans: a capture that starts strictly
+inside another layer's capture ends inside it (laminar); two non-empty captures that start at the
+same byte belong to layers of different depths and the SHALLOWER layer's capture is not the longer
+one (the code emits the deeper layer's Start first at a tie -- the same orientation as the StackSpec
+judge's `startTiesOk`). -/
 def crossNice (defs : List LayerDef) : Bool :=
   (List.range defs.length).all fun i => (List.range defs.length).all fun j =>
     i == j ||
     match defs[i]?, defs[j]? with
-    | some di, some dj => di.caps.all fun a => dj.caps.all fun b =>
-        a.s != b.s && (!(a.s < b.s && b.s < a.e) || decide (b.e ≤ a.e))
+    | some di, some dj => (spanCaps di).all fun a => (spanCaps dj).all fun b =>
+        (!(a.s < b.s && b.s < a.e) || decide (b.e ≤ a.e)) &&
+        (!(a.s == b.s && a.s < a.e && b.s < b.e) ||
+          (di.depth != dj.depth && (!(di.depth < dj.depth) || decide (a.e ≤ b.e))))
+    | _, _ => true
+
+/-- The laminar half of `crossNice` alone (reporting only: splits the real cases that `crossNice`
+excludes into "not laminar" and "start tie with the wrong orientation"). -/
+def crossLam (defs : List LayerDef) : Bool :=
+  (List.range defs.length).all fun i => (List.range defs.length).all fun j =>
+    i == j ||
+    match defs[i]?, defs[j]? with
+    | some di, some dj => (spanCaps di).all fun a => (spanCaps dj).all fun b =>
+        (!(a.s < b.s && b.s < a.e) || decide (b.e ≤ a.e))
     | _, _ => true
 
 theorem crossNice_spec {defs : List LayerDef} (h : crossNice defs = true) {i j : Nat} {di dj : LayerDef}
-    (hij : i ≠ j) (hi : defs[i]? = some di) (hj : defs[j]? = some dj) {a b : RCap} (ha : a ∈ di.caps) (hb : b ∈ dj.caps) :
-    a.s ≠ b.s ∧ (a.s < b.s → b.s < a.e → b.e ≤ a.e) := by
+    (hij : i ≠ j) (hi : defs[i]? = some di) (hj : defs[j]? = some dj) {a b : RCap}
+    (ha : a ∈ spanCaps di) (hb : b ∈ spanCaps dj) :
+    (a.s < b.s → b.s < a.e → b.e ≤ a.e) ∧
+    (a.s = b.s → a.s < a.e → b.s < b.e → di.depth ≠ dj.depth ∧ (di.depth < dj.depth → a.e ≤ b.e)) := by
   have hil : i < defs.length := by
     rcases Nat.lt_or_ge i defs.length with h' | h'
     · exact h'
@@ -87,18 +132,15 @@ theorem crossNice_spec {defs : List LayerDef} (h : crossNice defs = true) {i j :
   simp only [Bool.or_eq_true, beq_iff_eq, hij, false_or, hi, hj] at h2
   have h3 := List.all_eq_true.mp (List.all_eq_true.mp h2 a ha) b hb
   simp only [Bool.and_eq_true, bne_iff_ne, ne_eq, Bool.or_eq_true, Bool.not_eq_true', decide_eq_true_eq,
-    Bool.and_eq_false_iff, decide_eq_false_iff_not] at h3
-  refine ⟨h3.1, fun h4 h5 => ?_⟩
-  rcases h3.2 with (h6 | h6) | h6
-  · exact absurd h4 h6
-  · exact absurd h5 h6
-  · exact h6
+    Bool.and_eq_false_iff, decide_eq_false_iff_not, beq_iff_eq, beq_eq_false_iff_ne] at h3
+  refine ⟨fun h4 h5 => ?_, fun h4 h5 h6 => ⟨?_, fun h7 => ?_⟩⟩ <;> omega
 
 /-- Layer identity and provenance. -/
 structure NInv (defs : List LayerDef) (st : MSt) : Prop where
   ids : (st.layers.map (·.id)).Nodup
-  src : ∀ y ∈ st.layers, ∃ d, defs[y.id]? = some d ∧ (∀ c ∈ y.caps, c ∈ d.caps) ∧
-    ∀ e ∈ y.ends, ∃ c0 ∈ d.caps, c0.e = e ∧ c0.s ≤ st.off
+  src : ∀ y ∈ st.layers, ∃ d, defs[y.id]? = some d ∧ y.depth = d.depth ∧ (∀ c ∈ y.caps, c ∈ d.caps) ∧
+    ∀ e ∈ y.ends, ∃ c0 ∈ spanCaps d, c0.e = e ∧ c0.s ≤ st.off ∧
+      (c0.s = st.off → ∀ h' ∈ st.layers, y.depth < h'.depth → ∀ c ∈ h'.caps, c.s ≠ st.off)
 
 /-- The global stack of open ends kept by stack discipline: `none` = an End found a top that is
 not the end being closed. -/
@@ -215,6 +257,14 @@ theorem open_end_gt {off p d : Nat} {y : MLayer} (hi : LInv off y) {ky : Key} (h
           omega
   · omega
 
+theorem sortKey_depth {y : MLayer} {k : Key} (h : sortKey y = some k) : k.2.2 = y.depth := by
+  unfold sortKey at h
+  split at h
+  · split at h <;> (simp only [Option.some.injEq] at h; rw [← h])
+  · simp only [Option.some.injEq] at h; rw [← h]
+  · simp only [Option.some.injEq] at h; rw [← h]
+  · simp at h
+
 /-- One iteration: the End closes the top of the global stack; the stack stays sorted and a
 permutation of all end stacks; identity and provenance are kept. -/
 theorem stepM_well_nested (defs : List LayerDef) (_hn : DefsNice defs) (hni : noInj defs = true)
@@ -232,30 +282,49 @@ theorem stepM_well_nested (defs : List LayerDef) (_hn : DefsNice defs) (hni : no
     obtain ⟨k, hk, hmin⟩ := sorted_head_min hs
     have hl : LInv off l := ho.linv l (List.mem_cons_self)
     have hrestI : ∀ y ∈ rest, LInv off y := fun y hy => ho.linv y (List.mem_cons_of_mem _ hy)
-    obtain ⟨d, hd, hcapsd, hendsd⟩ := hv.src l (List.mem_cons_self)
+    obtain ⟨d, hd, hdep, hcapsd, hendsd⟩ := hv.src l (List.mem_cons_self)
+    simp only at hendsd
     have hids : (∀ x ∈ rest, ¬x.id = l.id) ∧ (rest.map (·.id)).Nodup := by simpa using hv.ids
     have hidl : ∀ y ∈ rest, y.id ≠ l.id := fun y hy => hids.1 y hy
     have hperm_new : ∀ l' : MLayer, (allEnds (sortLayers (l' :: rest))).Perm (l'.ends ++ allEnds rest) := by
       intro l'
       have := allEnds_sortLayers (l' :: rest)
       rwa [allEnds_cons] at this
-    -- the next state's NInv when the head keeps its id, its captures shrink and the offset grows
-    have mkN : ∀ (l' : MLayer) (off' : Nat) (last' : Option (Nat × Nat × Nat)), l'.id = l.id → off ≤ off' →
-        (∀ c ∈ l'.caps, c ∈ l.caps) → (∀ e ∈ l'.ends, ∃ c0 ∈ d.caps, c0.e = e ∧ c0.s ≤ off') →
+    -- a tie clause of this state transfers to the next state (captures shrink, the offset grows)
+    have tieT : ∀ (dy : Nat) (c0 : RCap) (l' : MLayer) (off' : Nat), l'.depth = l.depth → (∀ c ∈ l'.caps, c ∈ l.caps) →
+        off ≤ off' → c0.s ≤ off →
+        (c0.s = off → ∀ h' ∈ l :: rest, dy < h'.depth → ∀ c ∈ h'.caps, c.s ≠ off) →
+        (c0.s = off' → ∀ h' ∈ sortLayers (l' :: rest), dy < h'.depth → ∀ c ∈ h'.caps, c.s ≠ off') := by
+      intro dy c0 l' off' hdl hcl hoff hs0 hold heq h' hh' hlt c hc
+      have hoo : off' = off := by omega
+      rw [hoo]
+      rcases List.mem_cons.mp (mem_sortLayers hh') with hl' | hr
+      · rw [hl'] at hlt hc
+        exact hold (by omega) l List.mem_cons_self (by rw [← hdl]; exact hlt) c (hcl c hc)
+      · exact hold (by omega) h' (List.mem_cons_of_mem _ hr) hlt c hc
+    -- the next state's NInv when the head keeps its id and depth, its captures shrink and the offset grows
+    have mkN : ∀ (l' : MLayer) (off' : Nat) (last' : Option (Nat × Nat × Nat)), l'.id = l.id → l'.depth = l.depth →
+        off ≤ off' → (∀ c ∈ l'.caps, c ∈ l.caps) →
+        (∀ e ∈ l'.ends, ∃ c0 ∈ spanCaps d, c0.e = e ∧ c0.s ≤ off' ∧
+          (c0.s = off' → ∀ h' ∈ sortLayers (l' :: rest), l'.depth < h'.depth → ∀ c ∈ h'.caps, c.s ≠ off')) →
         NInv defs { layers := sortLayers (l' :: rest), off := off', last := last' } := by
-      intro l' off' last' hid hoff hcaps hends
+      intro l' off' last' hid hdl hoff hcaps hends
       refine ⟨ids_sortLayers _ (by simpa [hid] using hv.ids), ?_⟩
       intro y hy
-      rcases List.mem_cons.mp (mem_sortLayers hy) with rfl | hy'
-      · exact ⟨d, by rw [hid]; exact hd, fun c hc => hcapsd c (hcaps c hc), hends⟩
-      · obtain ⟨dy, h1, h2, h3⟩ := hv.src y (List.mem_cons_of_mem _ hy')
-        exact ⟨dy, h1, h2, fun e he => by
-          obtain ⟨c0, hc0, he0, hs0⟩ := h3 e he
-          exact ⟨c0, hc0, he0, by simp only at hs0 ⊢; omega⟩⟩
-    have keepEnds : ∀ off', off ≤ off' → ∀ e ∈ l.ends, ∃ c0 ∈ d.caps, c0.e = e ∧ c0.s ≤ off' := by
-      intro off' hoff e he
-      obtain ⟨c0, hc0, he0, hs0⟩ := hendsd e he
-      exact ⟨c0, hc0, he0, by simp only at hs0; omega⟩
+      rcases List.mem_cons.mp (mem_sortLayers hy) with hyl | hy'
+      · rw [hyl]
+        exact ⟨d, by rw [hid]; exact hd, by rw [hdl]; exact hdep, fun c hc => hcapsd c (hcaps c hc), hends⟩
+      · obtain ⟨dy, h1, h1', h2, h3⟩ := hv.src y (List.mem_cons_of_mem _ hy')
+        exact ⟨dy, h1, h1', h2, fun e he => by
+          obtain ⟨c0, hc0, he0, hs0, ht0⟩ := h3 e he
+          simp only at hs0 ht0
+          exact ⟨c0, hc0, he0, by simp only; omega, tieT y.depth c0 l' off' hdl hcaps hoff hs0 ht0⟩⟩
+    have keepEnds : ∀ (l' : MLayer) (off' : Nat), l'.depth = l.depth → (∀ c ∈ l'.caps, c ∈ l.caps) → off ≤ off' →
+        ∀ e ∈ l.ends, ∃ c0 ∈ spanCaps d, c0.e = e ∧ c0.s ≤ off' ∧
+          (c0.s = off' → ∀ h' ∈ sortLayers (l' :: rest), l'.depth < h'.depth → ∀ c ∈ h'.caps, c.s ≠ off') := by
+      intro l' off' hdl hcl hoff e he
+      obtain ⟨c0, hc0, he0, hs0, ht0⟩ := hendsd e he
+      exact ⟨c0, hc0, he0, by omega, by rw [hdl]; exact tieT l.depth c0 l' off' hdl hcl hoff hs0 ht0⟩
     have hGp' : G.Perm (l.ends ++ allEnds rest) := by rw [← allEnds_cons]; exact hGp
     cases hact : action l with
     | final =>
@@ -298,7 +367,8 @@ theorem stepM_well_nested (defs : List LayerDef) (_hn : DefsNice defs) (hni : no
           rw [hgeq] at h1
           exact (List.Perm.cons_inv h1).trans (hperm_new { l with ends := ends' }).symm
         · have hoff' : off ≤ (emitM off eb .stop).2 := by unfold emitM; split <;> simp <;> omega
-          exact mkN _ _ _ rfl hoff' (fun c hc => hc) (fun e he' => keepEnds _ hoff' e (by rw [he]; exact List.mem_cons_of_mem _ he'))
+          exact mkN _ _ _ rfl rfl hoff' (fun c hc => hc) (fun e he' =>
+            keepEnds { l with ends := ends' } _ rfl (fun c hc => hc) hoff' e (by rw [he]; exact List.mem_cons_of_mem _ he'))
     | take c caps' =>
       rw [hact] at h
       simp only at h
@@ -311,7 +381,8 @@ theorem stepM_well_nested (defs : List LayerDef) (_hn : DefsNice defs) (hni : no
             G'.Perm (allEnds (sortLayers ({ l with caps := cs } :: rest))) ∧
             NInv defs { layers := sortLayers ({ l with caps := cs } :: rest), off := off, last := last } := by
         intro cs hcs
-        refine ⟨G, by simp [ghostStep], hGs, ?_, mkN _ _ _ rfl (Nat.le_refl _) (fun x hx => htail x (hcs x hx)) (keepEnds off (Nat.le_refl _))⟩
+        refine ⟨G, by simp [ghostStep], hGs, ?_, mkN _ _ _ rfl rfl (Nat.le_refl _) (fun x hx => htail x (hcs x hx))
+          (keepEnds { l with caps := cs } off rfl (fun x hx => htail x (hcs x hx)) (Nat.le_refl _))⟩
         exact hGp'.trans (hperm_new { l with caps := cs }).symm
       cases hkind : c.kind with
       | inj ids =>
@@ -325,8 +396,15 @@ theorem stepM_well_nested (defs : List LayerDef) (_hn : DefsNice defs) (hni : no
         · simp only [stepSkip, StepRes.more.injEq] at h
           rw [← h.1, ← h.2]; exact hskip caps' (fun x hx => hx)
         · split at h
-          · simp only [stepStart, StepRes.more.injEq] at h
+          · rename_i hh2 hcol
+            simp only [stepStart, StepRes.more.injEq] at h
             rw [← h.1, ← h.2]
+            have hcsp : c ∈ spanCaps d := by
+              unfold spanCaps
+              refine List.mem_filter.mpr ⟨hcd, List.any_eq_true.mpr ?_⟩
+              rcases collapse_fst_some caps' hh hcol with h1 | ⟨c', h1, h2, h3⟩
+              · exact ⟨c, hcd, by simp [hlSome, hkind, h1]⟩
+              · exact ⟨c', hcapsd c' (htail c' h1), by simp [hlSome, h3, h2]⟩
             -- the new span ends at or before every open end of every layer
             have hcok := hl.capsok
             rw [hc] at hcok
@@ -345,13 +423,22 @@ theorem stepM_well_nested (defs : List LayerDef) (_hn : DefsNice defs) (hni : no
               obtain ⟨ky, hky, hge⟩ := hmin y hy
               rw [hkc] at hge
               have hgt := open_end_gt (hrestI y hy) hky hge e hey
-              obtain ⟨dy, hdy, _, h3⟩ := hv.src y (List.mem_cons_of_mem _ hy)
-              obtain ⟨c0, hc0, he0, hs0⟩ := h3 e hey
-              simp only at hs0
-              have hcn := crossNice_spec hx (hidl y hy) hdy hd hc0 hcd
-              have : c0.s < c.s := by have := hcn.1; omega
-              have := hcn.2 this (by omega)
-              omega
+              obtain ⟨dy, hdy, hdepy, _, h3⟩ := hv.src y (List.mem_cons_of_mem _ hy)
+              obtain ⟨c0, hc0, he0, hs0, ht0⟩ := h3 e hey
+              simp only at hs0 ht0
+              have hcn := crossNice_spec hx (hidl y hy) hdy hd hc0 hcsp
+              have hcn' := crossNice_spec hx (Ne.symm (hidl y hy)) hd hdy hcsp hc0
+              by_cases hlt : c0.s < c.s
+              · have := hcn.1 hlt (by omega)
+                omega
+              · have heq : c0.s = c.s := by omega
+                by_cases hne : c.s < c.e
+                · obtain ⟨q1, q2⟩ := hcn'.2 heq.symm hne (by omega)
+                  by_cases hdd : d.depth < dy.depth
+                  · have := q2 hdd; omega
+                  · exfalso
+                    exact ht0 (by omega) l List.mem_cons_self (by omega) c (by rw [hc]; exact List.mem_cons_self) (by omega)
+                · omega
             refine ⟨c.e :: G, ?_, ?_, ?_, ?_⟩
             · simp only [ghostStep, getLast_emit_start, hc]
             · refine List.pairwise_cons.mpr ⟨fun e he => ?_, hGs⟩
@@ -364,11 +451,22 @@ theorem stepM_well_nested (defs : List LayerDef) (_hn : DefsNice defs) (hni : no
                 intro hx; unfold emitM; split <;> simp <;> omega
               have hoffc : ∀ hx, c.s ≤ (emitM off c.s (.start hx)).2 := by
                 intro hx; unfold emitM; split <;> simp <;> omega
-              refine mkN _ _ _ rfl (hoff' _) (fun x hx => htail x (mem_collapse' hx)) ?_
+              refine mkN _ _ _ rfl rfl (hoff' _) (fun x hx => htail x (mem_collapse' hx)) ?_
               intro e he
               rcases List.mem_cons.mp he with rfl | he'
-              · exact ⟨c, hcd, rfl, hoffc _⟩
-              · exact keepEnds _ (hoff' _) e he'
+              · refine ⟨c, hcsp, rfl, hoffc _, ?_⟩
+                intro heq h' hh' hlt c' hc' hcs
+                rcases List.mem_cons.mp (mem_sortLayers hh') with hl' | hr
+                · rw [hl'] at hlt; exact absurd hlt (Nat.lt_irrefl _)
+                · obtain ⟨ky, hky, hge⟩ := hmin h' hr
+                  rw [hkc] at hge
+                  have hle := (key_le_all (hrestI h' hr) hky).1 c' hc'
+                  have hkd := sortKey_depth hky
+                  obtain ⟨a1, a2, a3⟩ := ky
+                  simp only at hle hkd hlt
+                  cases a2 <;> simp [keyLt] at hge <;> omega
+              · exact keepEnds { l with caps := (collapse c.node hh caps').2, ends := c.e :: l.ends } _ rfl
+                  (fun x hx => htail x (mem_collapse' hx)) (hoff' _) e he'
           · simp only [stepSkip, StepRes.more.injEq] at h
             rw [← h.1, ← h.2]; exact hskip _ (fun x hx => mem_collapse' hx)
 
@@ -485,7 +583,7 @@ theorem ids_filterMap_mk (defs : List LayerDef) : ∀ (top : List Nat), top.Nodu
 theorem init_ninv (defs : List LayerDef) (top : List Nat) (hnd : top.Nodup) :
     NInv defs { layers := initLayersR defs top } := by
   obtain ⟨h1, _⟩ := ids_filterMap_mk defs top hnd
-  have hsrc : ∀ y ∈ top.filterMap (mkLayer defs), ∃ d, defs[y.id]? = some d ∧ (∀ c ∈ y.caps, c ∈ d.caps) ∧ y.ends = [] := by
+  have hsrc : ∀ y ∈ top.filterMap (mkLayer defs), ∃ d, defs[y.id]? = some d ∧ y.depth = d.depth ∧ (∀ c ∈ y.caps, c ∈ d.caps) ∧ y.ends = [] := by
     intro y hy
     obtain ⟨id, _, hm⟩ := List.mem_filterMap.mp hy
     unfold mkLayer at hm
@@ -495,7 +593,7 @@ theorem init_ninv (defs : List LayerDef) (top : List Nat) (hnd : top.Nodup) :
       rw [hg] at hm
       simp only [Option.map_some, Option.some.injEq] at hm
       subst hm
-      exact ⟨d, hg, fun c hc => hc, rfl⟩
+      exact ⟨d, hg, rfl, fun c hc => hc, rfl⟩
   unfold initLayersR
   cases hf : top.filterMap (mkLayer defs) with
   | nil => exact ⟨by simp, fun y hy => by simp at hy⟩
@@ -509,8 +607,8 @@ theorem init_ninv (defs : List LayerDef) (top : List Nat) (hnd : top.Nodup) :
       rcases i2 y (mem_sortLayers hy) with h | h
       · simp at h; rw [h]; exact List.mem_cons_self
       · exact List.mem_cons_of_mem _ h
-    obtain ⟨d, hd, hc, he⟩ := hsrc y hy'
-    exact ⟨d, hd, hc, fun e hee => by rw [he] at hee; simp at hee⟩
+    obtain ⟨d, hd, hdp, hc, he⟩ := hsrc y hy'
+    exact ⟨d, hd, hdp, hc, fun e hee => by rw [he] at hee; simp at hee⟩
 
 /-- Along the whole run: every End closes the top of the global stack (the run with the ghost stack
 never fails), the stack is sorted by end and is a permutation of all layers' end stacks. -/
@@ -540,7 +638,7 @@ theorem iterG_well_nested (defs : List LayerDef) (hn : DefsNice defs) (hni : noI
       have hlay : ∀ l ∈ st.layers, ∀ c ∈ l.caps, ∀ ids, c.kind = .inj ids → ∀ j ∈ ids, ∀ d', defs[j]? = some d' →
           ∀ c' ∈ d'.caps, c.s ≤ c'.s := by
         intro l hl c hc ids hk
-        obtain ⟨d, hd, hcd, _⟩ := hv.src l hl
+        obtain ⟨d, hd, _, hcd, _⟩ := hv.src l hl
         have h1 := List.all_eq_true.mp hni d (List.mem_of_getElem? hd)
         have h2 := List.all_eq_true.mp h1 c (hcd c hc)
         rw [hk] at h2; simp at h2
